@@ -311,6 +311,56 @@ def gen_random(ctx, rnd, out):
                 out.append({"op": op, "s": codes(s), "sub": codes(sub), "src": call_src(q(s), op, [q(sub)])})
 
 
+def tval(v):
+    """typed encoding (Enc.tla) and source text of a small value"""
+    if v is None:
+        return {"t": "none"}, "None"
+    if isinstance(v, bool):
+        return {"t": "bool", "v": v}, str(v)
+    if isinstance(v, int):
+        return {"t": "int", "v": v}, str(v)
+    if isinstance(v, str):
+        return {"t": "str", "v": codes(v)}, q(v)
+    if isinstance(v, list):
+        return {"t": "list", "v": [tval(x)[0] for x in v]}, "[" + ", ".join(tval(x)[1] for x in v) + "]"
+    if isinstance(v, tuple):
+        return {"t": "tuple", "v": [tval(x)[0] for x in v]}, "(" + ", ".join(tval(x)[1] for x in v) + ("," if len(v) == 1 else "") + ")"
+    raise ValueError(v)
+
+
+def gen_format(ctx, rnd, out):
+    """str.format and % interpolation: templates are concatenations of pieces; the oracle (Fmt.tla) parses the text itself"""
+    pieces = ["a", "b ", "{}", "{0}", "{1}", "{x}", "{y}", "{!r}", "{0!r}", "{x!s}", "{1!r}", "{{", "}}", "{", "}", "{:d}", "{!z}", "{0:}", "{ }"]
+    vals = [5, -12, "ab", None, 'q"t', [1, "s"], True, (3,)]
+    maxp = 2 if ctx.quick else 3
+    argsets = [[], [5], ["ab", -12], [None, [1, "s"]], ['q"t', (3,)]]
+    for k in range(0, maxp + 1):
+        for tp in itertools.product(pieces, repeat=k):
+            if k == maxp and rnd.random() < (0.7 if ctx.quick else 0.85):
+                continue
+            f = "".join(tp)
+            for args in argsets:
+                if rnd.random() < 0.4:
+                    continue
+                for kw in ([], [("x", 7)], [("x", "k"), ("y", True)]):
+                    if kw and rnd.random() < 0.5:
+                        continue
+                    src = "%s.format(%s)" % (q(f), ", ".join([tval(a)[1] for a in args] + ["%s=%s" % (n, tval(v)[1]) for n, v in kw]))
+                    out.append({"op": "format", "s": codes(f), "args": [tval(a)[0] for a in args],
+                                "kw": [[codes(n), tval(v)[0]] for n, v in kw], "src": src})
+    ppieces = ["a", "%s", "%r", "%d", "%i", "%x", "%X", "%o", "%c", "%%", "%", "%z", " b"]
+    operands = [5, -255, "ab", None, "c", 65, (5,), (5, "ab"), ("ab", -255), (65, "c", 7), (), [1, 2], True, 'q"t', (None, [1, "s"])]
+    for k in range(0, maxp + 1):
+        for tp in itertools.product(ppieces, repeat=k):
+            if k == maxp and rnd.random() < (0.6 if ctx.quick else 0.8):
+                continue
+            f = "".join(tp)
+            for x in operands:
+                if rnd.random() < 0.5:
+                    continue
+                out.append({"op": "interp", "s": codes(f), "x": tval(x)[0], "src": "%s %% %s" % (q(f), tval(x)[1])})
+
+
 def gen_alias(ctx, rnd, out):
     """multi-step expressions over ONE value: slices, concatenations and repetitions must not disturb the value
     they were derived from (tuples, strings and bytes are immutable; list results are fresh)"""
@@ -345,7 +395,7 @@ def gen_alias(ctx, rnd, out):
 def generate(ctx):
     rnd = random.Random(ctx.seed)
     out = []
-    for g in (gen_slices, gen_search, gen_split, gen_case, gen_lists, gen_random, gen_alias):
+    for g in (gen_slices, gen_search, gen_split, gen_case, gen_lists, gen_random, gen_alias, gen_format):
         g(ctx, rnd, out)
     for i, c in enumerate(out):
         c["id"] = i + 1
